@@ -123,6 +123,7 @@ def sim_time():
 # ---------------------------------------------------------------------- processes
 class SimProcess:
     _count = 0
+    fail_next = 0            # number of coming start() calls that fail the way a fork/exec does when the system is out of resources
 
     def __init__(self, group=None, target=None, name=None, args=(), kwargs=None, env=None, daemon=None,
                  init_main_module=False):
@@ -136,6 +137,11 @@ class SimProcess:
         self.daemon = daemon
 
     def start(self):
+        if SimProcess.fail_next > 0 and getattr(k().cur_actor(), "role", "") == "user":
+            # only in a user thread (inside submit()): the property's fault model does not include spawn failures of the manager thread
+            SimProcess.fail_next -= 1
+            k().park("proc.start-fails")
+            raise OSError(11, "Resource temporarily unavailable")
         st = k().new_process(self.name)
         self._st = st
         self.pid = st.pid
